@@ -83,16 +83,16 @@ PROPS = {
                          'functions': 'histories of control requests over the event loop (Process.step / kill / pause / play / resume / '
                                       'interrupt actions interleaved): whole-history claims outside per-function contracts',
                          'bound': 'three-step process (async step awaiting a gate, Wait, Continue); all sequences of up to 3 requests from '
-                                  '{pause, play, kill, resume} at 4 points (created, paused at a boundary, inside the running step, inside the '
-                                  'waiting step): 407 histories'}],
+                                  '{pause, play, kill, resume} at 5 points (created, paused at a boundary, inside the running step, inside the waiting step, from a listener while entering the '
+                                  'waiting state): 562 histories'}],
             'not_claimed': []},
     'C05': {'scans': [], 'trusted': [],
             'bounded': [{'name': 'control_history_search', 'recipe': 'control_histories', 'args': {'claims': ['C05']},
                          'functions': 'histories of control requests over the event loop (Process.step / kill / pause / play / resume / '
                                       'interrupt actions interleaved): whole-history claims outside per-function contracts',
                          'bound': 'three-step process (async step awaiting a gate, Wait, Continue); all sequences of up to 3 requests from '
-                                  '{pause, play, kill, resume} at 4 points (created, paused at a boundary, inside the running step, inside the '
-                                  'waiting step): 407 histories'}],
+                                  '{pause, play, kill, resume} at 5 points (created, paused at a boundary, inside the running step, inside the waiting step, from a listener while entering the '
+                                  'waiting state): 562 histories'}],
             'not_claimed': []},
     'C01': {'scans': ['allowed_subset_graph', 'state_written_only_by_the_machine'], 'trusted': [],
             'bounded': [{'name': 'control_history_search', 'recipe': 'control_histories', 'args': {'claims': ['C01']},
@@ -108,9 +108,21 @@ PROPS = {
                                   'loads compared with the abstract map after every operation'}],
             'not_claimed': ['PicklePersister is covered by the bounded comparison only']},
     'C20': {'scans': [], 'trusted': [], 'bounded': [], 'not_claimed': []},
-    'C15': {'scans': [], 'trusted': [], 'bounded': [], 'not_claimed': []},
+    'C15': {'scans': [], 'trusted': [],
+            'bounded': [{'name': 'exposed_ports_are_copies', 'recipe': 'absorb_independent',
+                         'functions': 'independence of the exposed tree AT EVERY DEPTH (object identity of nested ports and namespaces; the '
+                                      'contract of absorb states freshness for the level it builds, the recursion is by its own contract)',
+                         'bound': 'one source tree of depth 3 x 9 include/exclude selections: no exposed port object is a source object, later '
+                                  'additions to / changes of the source do not show in the copy'}],
+            'not_claimed': []},
     'C19': {'scans': [], 'trusted': [],
-            'bounded': [{'name': 'auto_persist_member_sets', 'recipe': 'auto_persist_members',
+            'bounded': [{'name': 'savable_round_trips', 'recipe': 'savable_members',
+                         'functions': 'Savable.recreate_from / load_instance_state of subclasses, _ensure_persist_configured + the persist() hook '
+                                      '(class objects as run-time values: assumed in the contracts), whole save -> load round trips',
+                         'bound': 'one object graph (plain dict / tuple / bound method / nested Savable members), custom loader in the context and '
+                                  'recorded in the saved state, recreate_from without a loader, lazily declared members after a parent instance '
+                                  'was saved, missing class name / member, foreign bound method'},
+                        {'name': 'auto_persist_member_sets', 'recipe': 'auto_persist_members',
                          'functions': 'persistence.auto_persist.<wrapped>, Savable.auto_persist (class objects as values: outside the verifier)',
                          'bound': 'all hierarchies base/sub with <=2 declared names per decorator, <=2 stacked decorators, one direct classmethod call (36 cases)'}],
             'not_claimed': ['recreate_from / load_instance_state of subclasses (class objects as run-time values)',
